@@ -234,6 +234,11 @@ def worker(args):
     lines = [json.loads(l) for l in data.splitlines() if l.strip()]
     log = drive_raw(binary, data)
     check_log(rep, lines, log)
+    # the same scenario (a prefix of it) under valgrind memcheck
+    from common import memcheck
+    if shard < (2 if tier == "quick" else nshards):
+        cut = data.split(b"\n")[: (600 if tier == "quick" else 20000)]
+        memcheck(rep, "C12", binary, "snapshot", b"\n".join(cut) + b"\n")
     # the table as served by the running executable: GET /all against the records printed on stdout
     import random
     import sysjet
